@@ -491,3 +491,15 @@ V("gb-multiindex-shape-transposed", ["C01", "C08"], GB, "fire", (IG, "          
 V("gb-loop-order-benign", ["C01"], GB, "benign", (IG, "        B_indices = B_indices[::-1]\n", ""))
 V("gb-table-access-swapped-indices", ["C01", "C08"], GB, "fire", (ACC, "            return self.symbols.element_tables[tabledata.name][qp][entity][iq_global_index][\n                ic_global_index\n            ], symbols", "            return self.symbols.element_tables[tabledata.name][qp][entity][ic_global_index][\n                iq_global_index\n            ], symbols"))
 V("gb-dof-range-plus-one", ["C08"], GB, "fire", ("ffcx/codegeneration/definitions.py", "        ranges = [tabledata.values.shape[-1]]", "        ranges = [tabledata.values.shape[-1] + 1]"))
+
+# ---- GEN-DEFS ----------------------------------------------------------------------------------------
+GD = ["GEN-DEFS"]
+DEFP = "ffcx/codegeneration/definitions.py"
+V("gd-coefficient-stride-dropped", ["C05"], GD, "fire", (DEFP, "            mt.terminal, (ic.global_index) * bs + begin", "            mt.terminal, (ic.global_index) + begin"))
+V("gd-coefficient-offset-dropped", ["C05", "C08"], GD, "fire", (SYM, "        return w[offset + dof_index]", "        return w[dof_index]"))
+V("gd-coords-minus-shift-gdim", ["C02", "C08"], GD, "fire", (DEFP, "            offset = num_scalar_dofs * dim", "            offset = num_scalar_dofs * 2"))
+V("gd-coords-stride-2", ["C02", "C08"], GD, "fire", (DEFP, "        dim = 3\n        offset = 0", "        dim = 2\n        offset = 0"))
+V("gd-coords-minus-shift-plus", ["C02"], GD, "fire", (DEFP, "        if mt.restriction == \"-\":\n            offset = num_scalar_dofs * dim", "        if mt.restriction == \"+\":\n            offset = num_scalar_dofs * dim"))
+V("gd-benign-commute", ["C05"], GD, "benign", (DEFP, "        body = [L.AssignAdd(access, dof_access * FE)]", "        body = [L.AssignAdd(access, FE * dof_access)]"))
+V("gd-assign-not-accumulate", ["C05"], GD, "fire", (DEFP, "        body = [L.AssignAdd(access, dof_access * FE)]", "        body = [L.Assign(access, dof_access * FE)]"))
+V("gd-init-one", ["C05"], GD, "fire", (DEFP, "        declaration: list[L.Declaration] = [L.VariableDecl(access, 0.0)]", "        declaration: list[L.Declaration] = [L.VariableDecl(access, 1.0)]"))
